@@ -1,6 +1,6 @@
 (** Entry point "rfb_run": run the RFB client model over a list of chunks. *)
 From Coq Require Import ZArith List Bool String.
-From VD Require Import Base.Bytes Base.Text Base.Sexp Base.PixFmt Model.Engine Model.Rfb Model.Image Model.Screen.
+From VD Require Import Base.Bytes Base.Text Base.Sexp Base.PixFmt Model.Engine Model.Rfb Model.Image Model.Screen Model.Apply.
 Import ListNotations.
 Open Scope Z_scope.
 
@@ -55,18 +55,6 @@ Definition sexp_of_client (c : client) : sexp :=
       L [I 1; I (len buf); I (need s p); sexp_of_pf (pf s); I (immode_id (imode s)); I (width s); I (height s);
          I (rects s); sBool (waiter s)]
   | CRun Crashed => L [I 2]
-  end.
-
-(** the screen the library client builds from its callbacks *)
-Definition apply_ev (l : lib) (e : ev) : lib :=
-  let keep (o : option lib) := match o with Some l' => l' | None => l end in
-  match e with
-  | EMode m => mk_lib (screen l) (cur l) m (l_nocursor l) (l_x l) (l_y l)
-  | EUpd x y w h d => keep (update_rect l x y w h d)
-  | EFill x y w h c => keep (fill_rect l x y w h c)
-  | EDesktopSize w h => keep (resize l w h)
-  | ECursor x y w h i m => keep (update_cursor l x y w h i m)
-  | _ => l
   end.
 
 Definition sexp_of_screen (l : lib) : sexp :=
